@@ -93,8 +93,10 @@ def run(ctx):
     # ------------------------------------------------------- code -> spec
     n = 30000 if thorough else 2000
     p = ctx.harness(["rng", "record", "--n", n, "--out", ctx.path("trace.ndjson"), "--cases", ctx.path("cases.ndjson"),
-                     "--batch", 40 if thorough else 20, "--shards", 12], timeout=1500)
+                     "--batch", 40 if thorough else 20, "--shards", 12,
+                     "--extreme-seeds", 40000 if thorough else 6000, "--extreme-depth", 4000], timeout=1500)
     stats = json.loads(p.stdout.strip().splitlines()[-1])
+    n_gen, n = n, stats["cases"]
     res = judge(ctx, rep, ctx.path("trace.ndjson"), ctx.path("cases.ndjson"), "RngTrace (%d cases x 4 runs)" % n)
     if res["runs"] != 4 * n:
         raise vlib.MachineryError("expected %d runs in the trace, found %d" % (4 * n, res["runs"]))
@@ -137,6 +139,8 @@ def run(ctx):
     ctx.cover(
         evaluations=n, runs=res["runs"], next_calls_compared_with_first_run=res["compared"], drawn_values_range_checked=res["draws"],
         trace_events=res["lines"], child_processes=stats["children"],
+        generated_cases=n_gen, edge_of_interval_cases=n - n_gen,
+        cases_with_a_run_time_fault=sum(1 for c in cases if c.get("faulty")),
         seeds_longer_than_12=sum(1 for c in cases if len(c["seed"]) > 12),
         distinct_nontrivial=nontrivial,
         rule="one evaluation = one (script, seed, choice path) executed four times (first, again, disturbed, child process); "
